@@ -58,6 +58,16 @@ Theorem C03_second_finalize_refused : forall w slate ttl tip so co,
 Proof. exact finalize_unknown_slate. Qed.
 Print Assumptions C03_second_finalize_refused.
 
+(** Repeating the payer's step of an invoice: once the stored context names the inputs chosen
+    for it, processing the same invoice again (any account, any arguments) is refused and
+    changes nothing — no second set of inputs is attached to the slate. *)
+Theorem C03_second_process_invoice_refused : forall w s ttl src p tip pr km,
+  ctx_has_inputs w s = true ->
+  fst (process_invoice w s ttl src p tip pr km) = w
+  /\ is_ok (snd (process_invoice w s ttl src p tip pr km)) = false.
+Proof. exact process_invoice_twice_refused. Qed.
+Print Assumptions C03_second_process_invoice_refused.
+
 (** Selection never offers a held, spent or reverted output to a new transaction
     (with C01_conservation (a): every selected input is [eligible]). *)
 Theorem C03_selection_skips_held_outputs : forall (o : out) (h minconf : N),
@@ -103,4 +113,18 @@ Example C03_two_slates :
   /\ snd (step wLA (OpLock 2 0 5 true)) = [1%Z; 2%Z]
   /\ fst (step wLA (OpLock 2 0 5 true)) = wLA
   /\ option_map r_status (get_out (w_outs wLA) (0, 0) None) = Some Locked.
+Proof. vm_compute. repeat split; reflexivity. Qed.
+
+(** non-vacuity: a payer with coins in two accounts processes invoice 7 from account 0; the
+    stored context then names an input, and processing it again from account 1 is refused. *)
+Example C03_invoice_twice :
+  let pres := [((0, 0), None, 1); ((1, 0), None, 2)] in
+  let w0 := fst (step (fst (step empty_wallet (OpCoinbase 0 1 None))) (OpSetActive 1)) in
+  let w1 := fst (step (fst (step w0 (OpCoinbase 0 2 None))) (OpRefresh 1 true 6 pres [])) in
+  let p := mkParams 1000000000 false 6 1 500 1 false 0 in
+  let wP := fst (step w1 (OpProcessInvoice 7 0 (Some 0) p 6 pres [])) in
+  snd (step w1 (OpProcessInvoice 7 0 (Some 0) p 6 pres [])) = [0%Z]
+  /\ ctx_has_inputs wP 7 = true
+  /\ fst (step wP (OpProcessInvoice 7 0 (Some 1) p 6 pres [])) = wP
+  /\ snd (step wP (OpProcessInvoice 7 0 (Some 1) p 6 pres [])) = [1%Z; 5%Z].
 Proof. vm_compute. repeat split; reflexivity. Qed.
